@@ -344,8 +344,16 @@ package statefulset
 // every desired ordinal is occupied.  In such a state a reconcile issues no create, delete or update of a pod.
 //@ spec func desiredOf(s *apps.StatefulSet, o int) bool = desired(deref(s.Spec.Replicas), slotsAnn(ifaceOf(s, "*apps.StatefulSet")), o)
 //@ spec func idOK(s *apps.StatefulSet, p *v1.Pod) bool = ordOf(p) >= 0 && s.Name == parentName(p.Name) && p.Name == sprintf("%s-%d", s.Name, ordOf(p)) && p.Namespace == s.Namespace && ite(p.Labels != nil && p.Labels.has(PodNameLabel), p.Labels[PodNameLabel], "") == p.Name
-//@ spec func settledP(s *apps.StatefulSet, p *v1.Pod, upd string) bool = ordOf(p) >= 0 && desiredOf(s, ordOf(p)) && isCreatedS(p) && isHealthyS(p) && !(s.Spec.UpdateStrategy.Type == "RollingUpdate" && ordOf(p) >= partitionOf(s) && revOf(p) != upd) && idOK(s, p) && volsDistinct(p) && podStorage(s, p, ordOf(p))
-//@ spec func finalSnap(s *apps.StatefulSet, ps []*v1.Pod, upd string) bool = (forall k int :: {ps[k]} 0 <= k && k < len(ps) ==> settledP(s, ps[k], upd)) && (forall o int32 :: {count(slotsAnn(ifaceOf(s, "*apps.StatefulSet")), 0, o)} desiredOf(s, o) ==> 0 <= occ(ps, o) && occ(ps, o) < len(ps) && ordOf(ps[occ(ps, o)]) == o)
+//@ spec func outdatedP(s *apps.StatefulSet, p *v1.Pod, upd string) bool = s.Spec.UpdateStrategy.Type == "RollingUpdate" && ordOf(p) >= partitionOf(s) && revOf(p) != upd
+//@ spec func settledButRev(s *apps.StatefulSet, p *v1.Pod) bool = ordOf(p) >= 0 && desiredOf(s, ordOf(p)) && isCreatedS(p) && isHealthyS(p) && idOK(s, p) && volsDistinct(p) && podStorage(s, p, ordOf(p))
+//@ spec func settledP(s *apps.StatefulSet, p *v1.Pod, upd string) bool = settledButRev(s, p) && !outdatedP(s, p, upd)
+// calmSnap: nothing to create, delete or repair - every snapshot pod is settled except possibly for its revision, every desired ordinal is occupied
+//@ spec func calmSnap(s *apps.StatefulSet, ps []*v1.Pod) bool = (forall k int :: {ps[k]} 0 <= k && k < len(ps) ==> settledButRev(s, ps[k])) && (forall o int32 :: {count(slotsAnn(ifaceOf(s, "*apps.StatefulSet")), 0, o)} desiredOf(s, o) ==> 0 <= occ(ps, o) && occ(ps, o) < len(ps) && ordOf(ps[occ(ps, o)]) == o)
+//@ spec func finalSnap(s *apps.StatefulSet, ps []*v1.Pod, upd string) bool = calmSnap(s, ps) && (forall k int :: {ps[k]} 0 <= k && k < len(ps) ==> !outdatedP(s, ps[k], upd))
+// stalledUpdate: calm, but some pod is outdated (outdIdx is its index: a witness function constrained only here).  The rolling
+// update must then take a step: a reconcile in such a state issues a delete (the no-stall half of convergence for updates).
+//@ spec func outdIdx(ps []*v1.Pod) int
+//@ spec func stalledUpdate(s *apps.StatefulSet, ps []*v1.Pod, upd string) bool = calmSnap(s, ps) && s.DeletionTimestamp == nil && 0 <= outdIdx(ps) && outdIdx(ps) < len(ps) && outdatedP(s, ps[outdIdx(ps)], upd)
 // occ(ps, o): index of the snapshot pod occupying ordinal o (a witness function: uninterpreted, constrained only inside finalSnap)
 //@ spec func occ(ps []*v1.Pod, o int) int
 //@ func defaultStatefulSetControl.updateStatefulSet
@@ -363,14 +371,18 @@ package statefulset
 //@   profile defaulted requires set.Spec.UpdateStrategy.Type == "RollingUpdate" || set.Spec.UpdateStrategy.Type == "OnDelete"
 //@   at entry: ghost gSnap = pods; ghost gR = deref(set.Spec.Replicas); ghost gStrategy = set.Spec.UpdateStrategy.Type
 //@   at entry: ghost gPartition = partitionOf(set)
-//@   ghost var fin bool   -- the snapshot is a fixed point (C02): every pod settled, every desired ordinal occupied
-//@   at entry: ghost fin = finalSnap(set, pods, updateRevision.Name)
-//@   at call identityMatches#1 before: assert [C02] finwitness: fin ==> 0 <= sidx[replicas[i]] && sidx[replicas[i]] < len(pods) && pods[sidx[replicas[i]]] == replicas[i]
-//@   at call identityMatches#1 before: assert [C02] finid: fin ==> idOK(set, replicas[i])
-//@   at call identityMatches#1 before: assert [C02] finvols: fin ==> volsDistinct(replicas[i])
+//@   ghost var calm bool  -- nothing to create, delete or repair (C02)
+//@   ghost var fin bool   -- the snapshot is a fixed point (C02): calm and no pod outdated
+//@   ghost var stu bool   -- calm, but a pod is outdated: the rolling update must take a step (C02)
+//@   at entry: ghost calm = calmSnap(set, pods)
+//@   at entry: ghost fin = calm && (forall k int :: {pods[k]} 0 <= k && k < len(pods) ==> !outdatedP(set, pods[k], updateRevision.Name))
+//@   at entry: ghost stu = calm && set.DeletionTimestamp == nil && 0 <= outdIdx(pods) && outdIdx(pods) < len(pods) && outdatedP(set, pods[outdIdx(pods)], updateRevision.Name)
+//@   at call identityMatches#1 before: assert [C02] finwitness: calm ==> 0 <= sidx[replicas[i]] && sidx[replicas[i]] < len(pods) && pods[sidx[replicas[i]]] == replicas[i]
+//@   at call identityMatches#1 before: assert [C02] finid: calm ==> idOK(set, replicas[i])
+//@   at call identityMatches#1 before: assert [C02] finvols: calm ==> volsDistinct(replicas[i])
 //@   at call identityMatches#1 before: assert snapkept: forall k int :: {pods[k]} 0 <= k && k < len(pods) ==> pods[k].Spec.Volumes == old(pods[k].Spec.Volumes) && pods[k].Name == old(pods[k].Name)
 //@   at call identityMatches#1 before: assert setkept: set.Name == old(set.Name) && set.Spec.VolumeClaimTemplates == old(set.Spec.VolumeClaimTemplates)
-//@   at call identityMatches#1 before: assert [C02] finstorage: fin ==> ordOf(replicas[i]) >= 0 && podStorage(set, replicas[i], ordOf(replicas[i]))
+//@   at call identityMatches#1 before: assert [C02] finstorage: calm ==> ordOf(replicas[i]) >= 0 && podStorage(set, replicas[i], ordOf(replicas[i]))
 //@   at call ApplyRevision#1 before: ghost gTmplLo = allocMark()
 //@   at call ApplyRevision#2 after: ghost gTmplHi = allocMark()
 //@   at call newVersionedStatefulSetPod#2 after: assert [C12] censusafternew: forall k int :: {pods[k]} {rdyI[k]} {curI[k]} {updI[k]} 0 <= k && k < len(pods) ==> (rdyI[k] <==> isRunningAndReadyS(pods[k])) && (curI[k] <==> (isCreatedS(pods[k]) && !isTerminatingS(pods[k]) && revOf(pods[k]) == gCurRev)) && (updI[k] <==> (isCreatedS(pods[k]) && !isTerminatingS(pods[k]) && revOf(pods[k]) == gUpdRev))
@@ -422,6 +434,7 @@ package statefulset
 //@   profile defaulted ensures [C09] origin: err != nil ==> gCtlFails > old(gCtlFails) || errLocal(err)
 //@   profile defaulted ensures [C11] deletingnotouch: set.DeletionTimestamp != nil ==> gPodTouch == old(gPodTouch) && gWrites == old(gWrites)
 //@   profile defaulted ensures [C02] quiet: fin ==> gNact == 0 && gPodTouch == old(gPodTouch) && gWrites == old(gWrites)
+//@   profile defaulted ensures [C02] nostallupdate: stu ==> gNact >= 1 || err != nil
 //@   profile defaulted ensures [C02] fixedstatus: fin && err == nil ==> statusp.Replicas == len(pods) && statusp.ReadyReplicas == len(pods)
 //@   ensures writesgrow: gWrites >= old(gWrites) && gPodTouch >= old(gPodTouch) && gCtlFails >= old(gCtlFails)
 //@   profile defaulted ensures [C12] bounds: err == nil ==> 0 <= statusp.ReadyReplicas && statusp.ReadyReplicas <= statusp.Replicas && 0 <= statusp.CurrentReplicas && statusp.CurrentReplicas <= statusp.Replicas && 0 <= statusp.UpdatedReplicas && statusp.UpdatedReplicas <= statusp.Replicas
@@ -436,7 +449,7 @@ package statefulset
 //@   profile defaulted ensures [C14] burstcreates: err == nil && !gMonotonic && !gDeleting ==> (forall o int32 :: {gCreated[o]} vacant(o) ==> gCreated[o])
 //@   profile defaulted ensures [C14] burstdeletes: err == nil && !gMonotonic && !gDeleting ==> (forall k int :: {gSnap[k]} 0 <= k && k < len(gSnap) && condemnedP(gSnap[k]) && !isTerminatingS(gSnap[k]) ==> gDeleted[gSnap[k]])
 //@   loop 1 "range pods"
-//@     invariant [C02] nocondemnedq: fin ==> len(condemned) == 0
+//@     invariant [C02] nocondemnedq: calm ==> len(condemned) == 0
 //@     invariant len(replicas) == replicaCount && 0 <= len(condemned) && len(condemned) <= i
 //@     invariant statusrange: status.Replicas == i && 0 <= status.ReadyReplicas && status.ReadyReplicas <= i && 0 <= status.CurrentReplicas && status.CurrentReplicas <= i && 0 <= status.UpdatedReplicas && status.UpdatedReplicas <= i
 //@     invariant [C01,C03,C04,C05,C07,C12,C14] placedsnap: forall o int :: {replicas[o]} 0 <= o && o < replicaCount && replicas[o] != nil ==> inSnap(replicas[o]) && ordOf(replicas[o]) == o
@@ -449,7 +462,7 @@ package statefulset
 //@     invariant [C12] condemnedsrc: forall j int :: {condemned[j]} {csrc[j]} 0 <= j && j < len(condemned) ==> 0 <= csrc[j] && csrc[j] < i && condemned[j] == pods[csrc[j]]
 //@     invariant [C12] condemnedinc: forall a int, b int :: {csrc[a], csrc[b]} 0 <= a && a < b && b < len(condemned) ==> csrc[a] < csrc[b]
 //@   loop 2 "for ord := 0; ord < replicaCount"
-//@     invariant [C02] nonewq: fin ==> (forall o int :: {replicas[o]} 0 <= o && o < replicaCount && replicas[o] != nil ==> inSnap(replicas[o]))
+//@     invariant [C02] nonewq: calm ==> (forall o int :: {replicas[o]} 0 <= o && o < replicaCount && replicas[o] != nil ==> inSnap(replicas[o]))
 //@     invariant 0 <= ord && ord <= replicaCount && len(replicas) == replicaCount
 //@     invariant alloc: forall o int :: {replicas[o]} 0 <= o && o < replicaCount ==> allocated(replicas[o])
 //@     invariant [C01,C03,C04,C05,C07,C12,C14] placedord: forall o int :: {replicas[o]} 0 <= o && o < replicaCount && replicas[o] != nil ==> ordOf(replicas[o]) == o && (inSnap(replicas[o]) || isNewP(replicas[o]))
@@ -470,8 +483,8 @@ package statefulset
 //@     invariant unhealthy >= 0 && (unhealthy > 0 ==> firstUnhealthyPod != nil)
 //@     invariant counted: forall j int :: {condemned[j]} 0 <= j && j < i && !isHealthyS(condemned[j]) ==> unhealthy > 0
 //@   loop 5 "range replicas"
-//@     invariant [C02] quietsofar: fin ==> gNact == 0 && gPodTouch == old(gPodTouch) && gWrites == old(gWrites)
-//@     invariant [C02] nonewq: fin ==> (forall o int :: {replicas[o]} 0 <= o && o < replicaCount && replicas[o] != nil ==> inSnap(replicas[o]))
+//@     invariant [C02] quietsofar: calm ==> gNact == 0 && gPodTouch == old(gPodTouch) && gWrites == old(gWrites)
+//@     invariant [C02] nonewq: calm ==> (forall o int :: {replicas[o]} 0 <= o && o < replicaCount && replicas[o] != nil ==> inSnap(replicas[o]))
 //@     invariant len(replicas) == replicaCount && !gDeleting && gUpdDeletes == 0
 //@     invariant [C09] writes: gWrites >= old(gWrites) && gPodTouch >= old(gPodTouch) && gCtlFails == old(gCtlFails)
 //@     invariant alloc: forall o int :: {replicas[o]} 0 <= o && o < replicaCount ==> allocated(replicas[o])
@@ -504,7 +517,7 @@ package statefulset
 //@     invariant [C12] newcreated: forall o int :: {replicas[o]} 0 <= o && o < i && replicas[o] != nil && !inSnap(replicas[o]) ==> gCreated[o]
 //@     invariant [C14] burstcreated: !gMonotonic ==> (forall o int :: {gCreated[o]} 0 <= o && o < i && vacant(o) ==> gCreated[o])
 //@   loop 6 "for target := len(condemned) - 1; target >= 0"
-//@     invariant [C02] quietsofar: fin ==> gNact == 0 && gPodTouch == old(gPodTouch) && gWrites == old(gWrites)
+//@     invariant [C02] quietsofar: calm ==> gNact == 0 && gPodTouch == old(gPodTouch) && gWrites == old(gWrites)
 //@     invariant 0 - 1 <= target && target < len(condemned) && !gDeleting && gUpdDeletes == 0
 //@     invariant [C09] writes: gWrites >= old(gWrites) && gPodTouch >= old(gPodTouch) && gCtlFails == old(gCtlFails)
 //@     invariant statusrange: 0 - replicaCount - (len(condemned) - 1 - target) <= status.CurrentReplicas && 0 - replicaCount - (len(condemned) - 1 - target) <= status.UpdatedReplicas
@@ -534,7 +547,8 @@ package statefulset
 //@   at loopstart 7: ghost old7Replicas = status.Replicas; ghost old7Ready = status.ReadyReplicas; ghost old7Current = status.CurrentReplicas; ghost old7Updated = status.UpdatedReplicas
 //@   loop 7 "for target := len(replicas) - 1; target >= updateMin"
 //@     invariant [C02] quietsofar: fin ==> gNact == 0 && gPodTouch == old(gPodTouch) && gWrites == old(gWrites)
-//@     invariant [C02] nonewq: fin ==> (forall o int :: {replicas[o]} 0 <= o && o < replicaCount && replicas[o] != nil ==> inSnap(replicas[o]))
+//@     invariant [C02] stallwitness: stu ==> gNact == 0 && ordOf(pods[outdIdx(pods)]) <= target
+//@     invariant [C02] nonewq: calm ==> (forall o int :: {replicas[o]} 0 <= o && o < replicaCount && replicas[o] != nil ==> inSnap(replicas[o]))
 //@     invariant target <= len(replicas) - 1 && gUpdDeletes == 0 && (gMonotonic ==> gNact == 0)
 //@     invariant [C12] statusfixed: status.Replicas == old7Replicas && status.ReadyReplicas == old7Ready && status.CurrentReplicas == old7Current && status.UpdatedReplicas == old7Updated
 //@     invariant [C07] higherupdated: forall o int :: {replicas[o]} {count(gS, 0, o)} target < o && o < len(replicas) && replicas[o] != nil ==> revOf(replicas[o]) == gUpdRev && isHealthyS(replicas[o])
